@@ -18,7 +18,9 @@ Inductive vact :=
 Inductive vcond :=
 | VCIsSpawn          (* item is self.spawn *)
 | VCInEnts           (* item in self.entities *)
-| VCNot (c : vcond) | VCOr (a b : vcond) | VCAnd (a b : vcond).
+| VCNot (c : vcond) | VCOr (a b : vcond) | VCAnd (a b : vcond)
+| VCCached (attr : str).   (* item.<attr>: a flag kept on the entity object (round 5); the model has no such state, the
+                              facts never decide it, so no program in which it matters passes a path obligation *)
 Inductive vprog := VSkip | VSeq (a b : vprog) | VIf (c : vcond) (a b : vprog) | VAct (a : vact).
 
 Global Instance vact_eq_dec : EqDecision vact.
@@ -43,6 +45,7 @@ Section listops.
     | VCNot c => negb (v_cond c e st)
     | VCOr a b => v_cond a e st || v_cond b e st
     | VCAnd a b => v_cond a e st && v_cond b e st
+    | VCCached _ => false
     end.
   Fixpoint v_run (p : vprog) (e : nat) (st : mstate) : mstate :=
     match p with
@@ -67,6 +70,7 @@ Section listops.
     | VCNot c => negb <$> vcond_abs c f ph
     | VCOr a b => match vcond_abs a f ph, vcond_abs b f ph with Some x, Some y => Some (x || y) | _, _ => None end
     | VCAnd a b => match vcond_abs a f ph, vcond_abs b f ph with Some x, Some y => Some (x && y) | _, _ => None end
+    | VCCached _ => None
     end.
   Definition vphase_after (a : vact) (ph : vphase) : vphase :=
     match a with
@@ -128,4 +132,7 @@ Section listops.
     VIf (VCOr VCIsSpawn VCInEnts) (VAct VRemoveFirst) (VSeq (VAct VRemoveFirst) (VSeq (VAct VRemClass) (VAct VRemTarget))).
   Definition remove_ent_and_guard : vprog :=
     VSeq (VAct VRemoveFirst) (VIf (VCAnd VCIsSpawn VCInEnts) VSkip (VSeq (VAct VRemClass) (VAct VRemTarget))).
+  (** "still listed" read from a flag on the entity instead of the scan of the list (round 5) *)
+  Definition remove_ent_cached_flag : vprog :=
+    VSeq (VAct VRemoveFirst) (VIf (VCOr VCIsSpawn (VCCached [95;105;110;95;109;97;112]%N)) VSkip (VSeq (VAct VRemClass) (VAct VRemTarget))).
 End listops.
